@@ -311,8 +311,10 @@ class Sink:
         return ''.join(self.parts)
 
 
-def run_cli(text: str, options: Sequence[str] = ()):
-    """Runs the REAL main program in process on a test-case file holding `text` (command line: options + [FILE])."""
+def run_cli(text: str, options: Sequence[str] = (), files: Optional[Dict[str, str]] = None, stub=None):
+    """Runs the REAL main program in process on a test-case file holding `text` (command line: options + [FILE]).
+    `files`: further files {name: contents} in the directory of the test-case file (= home and act-home directory);
+    `stub`: the stand-in for the subprocess module (default: SubprocessStub)."""
     import io
     from vsym import scratch
     from exactly_lib.cli import main_program
@@ -320,14 +322,19 @@ def run_cli(text: str, options: Sequence[str] = ()):
     from exactly_lib.util.file_utils.std import StdOutputFiles
     from exactly_lib.util.process_execution import process_executor
     from exactly_lib.processing import preprocessor
-    process_executor.subprocess = SubprocessStub
-    preprocessor.subprocess = SubprocessStub
+    stub = SubprocessStub if stub is None else stub
+    process_executor.subprocess = stub
+    preprocessor.subprocess = stub
     work = scratch.new_dir('c08')
     case_dir = os.path.join(work, 'case')
     os.mkdir(case_dir)
     path = os.path.join(case_dir, 't.case')
     with open(path, 'w') as f:
         f.write(text)
+    for name in sorted(files or ()):
+        with open(os.path.join(case_dir, name), 'w') as f:
+            f.write(files[name])
+        os.chmod(os.path.join(case_dir, name), 0o755)  # usable as an executable file too
     roots = []
 
     def resolver() -> str:
@@ -344,7 +351,7 @@ def run_cli(text: str, options: Sequence[str] = ()):
             d.builtin_symbols.ALL),
         d.test_suite.test_suite_definition(), io.DEFAULT_BUFFER_SIZE)
     out, err = Sink(), Sink()
-    SubprocessStub.calls = []
+    stub.calls = []
     cwd = os.getcwd()
     exc = None
     try:
@@ -352,15 +359,17 @@ def run_cli(text: str, options: Sequence[str] = ()):
     except Exception as e:  # noqa
         rc, exc = None, e
     os.chdir(cwd)
-    calls = list(SubprocessStub.calls)
+    calls = list(stub.calls)
     scratch.remove(work)
     return dict(rc=rc, exc=exc, ident=out.value().split('\n')[0], stdout=out.value(), stderr=err.value(),
                 calls=calls, sandboxes=list(roots), case_dir=case_dir)
 
 
-def run_suite(case_texts: Sequence[str]):
+def run_suite(case_texts: Sequence[str], conf: Sequence[str] = (), files: Optional[Dict[str, str]] = None, stub=None):
     """Runs the REAL main program in process on a suite file listing the case files c0.case, c1.case, ... (in this
-    order) holding `case_texts`.  -> dict(rc, exc, statuses: the outcome printed for each case, in order)"""
+    order) holding `case_texts`.  -> dict(rc, exc, statuses: the outcome printed for each case, in order)
+    `conf`: lines of the [conf] section of the suite file; `files`: further files {name: contents} in the directory of the
+    suite (and case) files; `stub`: the stand-in for the subprocess module (default: SubprocessStub)."""
     import io
     from vsym import scratch
     from exactly_lib.cli import main_program
@@ -369,8 +378,9 @@ def run_suite(case_texts: Sequence[str]):
     from exactly_lib.util.file_utils.std import StdOutputFiles
     from exactly_lib.util.process_execution import process_executor
     from exactly_lib.processing import preprocessor
-    process_executor.subprocess = SubprocessStub
-    preprocessor.subprocess = SubprocessStub
+    stub = SubprocessStub if stub is None else stub
+    process_executor.subprocess = stub
+    preprocessor.subprocess = stub
     work = scratch.new_dir('c08s')
     names = []
     for i, text in enumerate(case_texts):
@@ -378,7 +388,11 @@ def run_suite(case_texts: Sequence[str]):
         with open(os.path.join(work, names[-1]), 'w') as f:
             f.write(text)
     with open(os.path.join(work, 's.suite'), 'w') as f:
-        f.write('[cases]\n' + '\n'.join(names) + '\n')
+        f.write(('[conf]\n' + '\n'.join(conf) + '\n' if conf else '') + '[cases]\n' + '\n'.join(names) + '\n')
+    for name in sorted(files or ()):
+        with open(os.path.join(work, name), 'w') as f:
+            f.write(files[name])
+        os.chmod(os.path.join(work, name), 0o755)  # usable as an executable file too
     roots = []
 
     def resolver() -> str:
@@ -390,7 +404,7 @@ def run_suite(case_texts: Sequence[str]):
     real_mk_tmp = sandbox_dir_resolving.mk_tmp_dir_with_prefix
     sandbox_dir_resolving.mk_tmp_dir_with_prefix = lambda prefix: resolver  # the suite makes its own resolver: tempfile.mkdtemp
     out, err = Sink(), Sink()
-    SubprocessStub.calls = []
+    stub.calls = []
     cwd = os.getcwd()
     exc = None
     try:
@@ -413,7 +427,7 @@ def run_suite(case_texts: Sequence[str]):
         parts = line.split()
         if len(parts) >= 3 and parts[0] == 'case' and parts[1].endswith('.case:'):
             statuses[parts[1][:-1]] = parts[-1]
-    calls = list(SubprocessStub.calls)
+    calls = list(stub.calls)
     scratch.remove(work)
     return dict(rc=rc, exc=exc, statuses=[statuses.get(n) for n in names], stdout=out.value(), stderr=err.value(),
-                calls=calls, sandboxes=len(roots))
+                calls=calls, sandboxes=len(roots), sandbox_dirs=list(roots), case_dir=work)
